@@ -14,6 +14,7 @@ import numpy as np
 from hypothesis import strategies as st
 
 from ..gen import cell_st, snapshot_from
+from .. import harness as H
 from ..harness import Facet, Violation
 from ..ref import voro
 from ..util import arr, close, require
@@ -23,7 +24,7 @@ from PyMatterSim.neighbors.read_neighbors import read_neighbors
 from PyMatterSim.reader.reader_utils import Snapshots
 
 RULE = ("orthogonal periodic boxes with unequal edges and origins {0, arbitrary, centred, bounds summing to 0} x "
-        "{2D N 12..60, 3D N 20..60} x 1..3 frames x point clouds in general position (uniform, jittered lattice, "
+        "{2D N 12..60, 3D N 20..60} x 1..3 frames (same box in all frames, or a different box per frame) x {bulk boxes, thin boxes with one edge of about one particle spacing so that cells touch their own image} x point clouds in general position (uniform, jittered lattice, "
         "clustered; bulk coordinates from numpy default_rng(k) with k drawn by Hypothesis); optional whole-box image "
         "offsets. non-trivial = coordination numbers differ between particles and (origin != 0 or >= 2 frames or "
         "image offsets)")
@@ -35,6 +36,9 @@ ASSUMPTIONS = [
     "2e-3 x (mean spacing)^(d-1), or whose multiplicity changes under such a perturbation, may be present in only one "
     "of the two tessellations (near-degenerate facets)",
     "a printed weight 0.000000 is accepted only for such a near-degenerate facet",
+    "known finding freud-drops-facet (3D only): a regular facet of the reference tessellation that is missing from the "
+    "file (one or both directions) while both cell volumes are right is excluded and counted, at most 4 per frame; a "
+    "listed bond that the reference does not have, or a wrong weight, is always a violation",
     "VolumeMatrix (boxes with edges <= 8, deltar in {0.01, 0.001}) is compared with central differences of the float64 "
     "reference volumes with tolerance 1e-2 of the largest entry + the float32 noise bound 4 d ulp surface/(2 deltar V); "
     "the self term is checked through the row-sum identity only",
@@ -67,9 +71,31 @@ def cloud_st(draw, d, nmin, nmax, frames=(1, 3), lmax=30.0, small_origin=False):
     seeds = [draw(st.integers(0, 2**32 - 1)) for _ in range(T)]
     jit = draw(st.sampled_from([0.1, 0.25, 0.4]))
     outside = draw(st.booleans())
-    L = np.diag(cell["H"])
+    shape = draw(st.sampled_from(["bulk", "bulk", "bulk", "thin"]))
+    if shape == "thin":
+        # one edge of about one particle spacing: cells touch their own periodic image (self bonds, repeated bonds)
+        a = draw(st.integers(0, d - 1))
+        fthin = draw(st.sampled_from([0.8, 1.0, 1.3, 1.7]))
+        L0 = np.diag(cell["H"]).copy()
+        P = np.prod(np.delete(L0, a))
+        L0[a] = (fthin ** d * P / N) ** (1.0 / (d - 1))
+        cell = dict(cell, H=np.diag(L0))
+        if cell["origin"] == "centred":
+            cell["lo"] = -L0 / 2.0
+    # per-frame boxes (NPT-like trajectories): the writer tessellates every frame in its own box
+    cells = [cell]
+    varybox = T >= 2 and draw(st.booleans())
+    for _ in range(T - 1):
+        if varybox:
+            fac = np.array([draw(st.sampled_from([0.8, 0.9, 1.0, 1.1, 1.25])) for _ in range(d)])
+            Lk = np.diag(cell["H"]) * fac
+            lok = -Lk / 2.0 if cell["origin"] == "centred" else cell["lo"] + (draw(st.integers(-3, 3)) / 4.0 if cell["origin"] == "arbitrary" else 0.0)
+            cells.append(dict(cell, H=np.diag(Lk), lo=np.array(lok, dtype=float) * np.ones(d)))
+        else:
+            cells.append(cell)
     pos = []
-    for s in seeds:
+    for s, ck in zip(seeds, cells):
+        L = np.diag(ck["H"])
         rng = np.random.default_rng(s)
         if kind == "uniform":
             f = rng.random((N, d))
@@ -82,26 +108,29 @@ def cloud_st(draw, d, nmin, nmax, frames=(1, 3), lmax=30.0, small_origin=False):
             g = g[rng.permutation(len(g))[:N]]
             f = ((g + 0.5 + jit * (rng.random((N, d)) - 0.5) * 2) / m) % 1.0
         off = rng.integers(-1, 2, (N, d)).astype(float) if outside else 0.0
-        pos.append(cell["lo"] + (f + off) * L)
+        pos.append(ck["lo"] + (f + off) * L)
     t0 = draw(st.integers(0, 10**6))
-    return {"d": d, "cell": cell, "pos": pos, "types": np.ones(N, dtype=int), "kind": kind, "outside": outside,
+    return {"d": d, "cell": cell, "cells": cells, "shape": shape, "varybox": bool(varybox and any(
+                not np.array_equal(c["H"], cell["H"]) for c in cells)),
+            "pos": pos, "types": np.ones(N, dtype=int), "kind": kind, "outside": outside,
             "timesteps": [t0 + 100 * k for k in range(T)],
             "nmax_extra": draw(st.integers(0, 5)), "nmax_trunc": draw(st.integers(1, 4))}
 
 
 def _snapshots(case, frames=None):
     idx = range(len(case["pos"])) if frames is None else frames
-    snaps = [snapshot_from(case["cell"], case["pos"][k], case["types"], case["timesteps"][k]) for k in idx]
+    snaps = [snapshot_from(case["cells"][k], case["pos"][k], case["types"], case["timesteps"][k]) for k in idx]
     return Snapshots(nsnapshots=len(snaps), snapshots=snaps)
 
 
 def _general_position(case):
-    L = np.diag(case["cell"]["H"])
     d = case["d"]
-    for p in case["pos"]:
+    for p, ck in zip(case["pos"], case["cells"]):
+        L = np.diag(ck["H"])
         N = len(p)
         spacing = (np.prod(L) / N) ** (1.0 / d)
-        q = p - np.floor(p / L) * L
+        q = p - ck["lo"]
+        q = q - np.floor(q / L) * L
         dr = q[:, None, :] - q[None, :, :]
         dr -= np.round(dr / L) * L
         dist = np.sqrt((dr ** 2).sum(-1)) + np.eye(N) * 1e9
@@ -217,10 +246,11 @@ def check_files(case):
     snaps = _snapshots(case)
     N = len(case["types"])
     T = len(case["pos"])
-    L = np.diag(case["cell"]["H"])
-    V = float(np.prod(L))
     before = [s.positions.copy() for s in snaps.snapshots]
     out = os.path.join(os.getcwd(), "voro")
+    for fn in ("voro.neighbor.dat", "voro.edgelength.dat", "voro.facearea.dat", "voro.overall.dat"):
+        if os.path.exists(fn):
+            os.remove(fn)
     cal_neighbors(snaps, outputfile=out)
     for s, b in zip(snaps.snapshots, before):
         require(np.array_equal(s.positions, b), "cal_neighbors modified the snapshot positions")
@@ -232,11 +262,15 @@ def check_files(case):
     wt = parse_framed(wname, tail, N, T, "bond-weight file")
     ov = parse_overall(out + ".overall.dat", N, T)
 
-    spacing = (V / N) ** (1.0 / d)
-    wtol = 2e-3 * spacing ** (d - 1)
     ambiguous = 0
+    known_dropped = 0
+    self_bonds = 0
     cn_varies = False
     for k in range(T):
+        L = np.diag(case["cells"][k]["H"])
+        V = float(np.prod(L))
+        spacing = (V / N) ** (1.0 / d)
+        wtol = 2e-3 * spacing ** (d - 1)
         ids = [[int(v) for v in row] for row in nb[k]]
         for i in range(N):
             require(all(float(a) == float(b) for a, b in zip(ids[i], nb[k][i])), f"frame {k} id {i + 1}: non-integer neighbour id")
@@ -245,6 +279,7 @@ def check_files(case):
                     f"frame {k} id {i + 1}: cn differs between files: {len(ids[i])} neighbours, {len(wt[k][i])} weights, "
                     f"overall cn {ov[k][i][0]}")
             require(all(w >= 0 for w in wt[k][i]), f"frame {k} id {i + 1}: negative bond weight {wt[k][i]}")
+        self_bonds += sum(1 for i in range(N) for j in ids[i] if j == i + 1)
         cn = np.array([len(r) for r in ids])
         cn_varies = cn_varies or len(set(cn.tolist())) > 1
         # symmetric as a multiset, weights equal in both directions
@@ -260,6 +295,8 @@ def check_files(case):
                 if a is None or b is None:
                     # a facet seen from one side only is tolerated only when it is near-degenerate
                     w1 = a if b is None else b
+                    if d == 3 and w1 >= wtol and not H.STRICT:
+                        continue  # known finding freud-drops-facet: decided below against the reference tessellation
                     require(w1 < wtol, f"frame {k}: bond {i + 1}->{j + 1} (weight {w1!r}) has no reverse entry "
                                        f"(near-degenerate threshold {wtol:.2e})")
                     ambiguous += 1
@@ -272,11 +309,12 @@ def check_files(case):
                 f"frame {k}: cell volumes sum to {vols.sum()!r}, box volume {V!r}")
         # differential against the independent tessellation; tolerances are calibrated per cell / per bond from the
         # measured sensitivity of the reference to float32-sized input perturbations (see ASSUMPTIONS)
-        rvol, rtab, svol, sw, unstable, surf, eps = _ref_with_sensitivity(case["pos"][k], case["cell"]["lo"], L)
+        rvol, rtab, svol, sw, unstable, surf, eps = _ref_with_sensitivity(case["pos"][k], case["cells"][k]["lo"], L)
         vtol = 5.1e-7 + 1e-9 * V + 8 * svol + 4 * d * eps * surf
         badv = np.abs(vols - rvol) > vtol
         require(not badv.any(), lambda: f"frame {k}: cell volume of id {int(np.argmax(badv)) + 1} is {vols[badv][0]!r}, "
                                         f"reference {rvol[badv][0]!r} (tolerance {vtol[badv][0]:.2e})")
+        dropped = 0
         for i in range(N):
             got = {}
             for j, w in zip(ids[i], wt[k][i]):
@@ -291,6 +329,12 @@ def check_files(case):
                 for a, b in zip(g, r):
                     if a == 0.0 or b == 0.0:
                         # facet present in only one tessellation (or printed as 0.000000): must be near-degenerate
+                        if d == 3 and a == 0.0 and b >= wtol + 8 * s_ij and j not in unstable[i] and not H.STRICT:
+                            # known finding freud-drops-facet (KNOWN_FINDINGS.json): in 3D the tessellation library
+                            # occasionally omits a regular facet from its bond list although the cell itself (volume,
+                            # checked above) is right.  Excluded here and counted; anything else is still reported.
+                            dropped += 1
+                            continue
                         require(max(a, b) < wtol + 8 * s_ij or j in unstable[i],
                                 f"frame {k}: bond {i + 1}->{j + 1}: weight {a!r} in file, {b!r} in the reference "
                                 f"tessellation (tolerance {wtol + 8 * s_ij:.2e})")
@@ -301,6 +345,9 @@ def check_files(case):
                             tol += wtol
                         require(abs(a - b) <= tol, f"frame {k}: bond {i + 1}->{j + 1} weight {a!r} != reference {b!r} "
                                                    f"(tolerance {tol:.2e})")
+        require(dropped <= 4, f"frame {k}: {dropped} regular facets of the reference tessellation are missing from the "
+                              f"neighbour file (more than the isolated omissions of the known finding freud-drops-facet)")
+        known_dropped += dropped
     # hand-off to the neighbour-file reader, frame by frame from one open file
     maxcn = max(len(r) for fr in nb for r in fr)
     nmax_big = maxcn + case["nmax_extra"]
@@ -326,8 +373,10 @@ def check_files(case):
     origin = case["cell"]["origin"]
     nontrivial = bool(cn_varies and (origin != "zero" or T >= 2 or case["outside"]))
     tags = [f"d{d}", f"origin-{origin}", f"frames{T}", case["kind"], "outside" if case["outside"] else "inside",
-            "N<=20" if N <= 20 else "N>20"]
-    return {"nontrivial": nontrivial, "tags": tags, "extra": {"ambiguous_facets": ambiguous}}
+            "N<=20" if N <= 20 else "N>20", "box-" + case["shape"], "box-varies" if case["varybox"] else "box-constant",
+            "self-image-bonds" if self_bonds else "no-self-bonds"]
+    return {"nontrivial": nontrivial, "tags": tags, "extra": {"ambiguous_facets": ambiguous, "self_image_bonds": self_bonds,
+                                                              "excluded_known_freud_dropped_facets": known_dropped}}
 
 
 # ----------------------------------------------------------------------------- facet: volume-response matrix
@@ -369,7 +418,8 @@ def check_volmat(case):
     N = len(case["types"])
     T = len(case["pos"])
     k = case["nconfig"]
-    L = np.diag(case["cell"]["H"])
+    cellk = case["cells"][k]
+    L = np.diag(cellk["H"])
     snaps = _snapshots(case)
     before = [s.positions.copy() for s in snaps.snapshots]
     outfile = os.path.join(os.getcwd(), "volmat.npy") if case["save"] else ""
@@ -394,10 +444,11 @@ def check_volmat(case):
     # independent central differences (float64 Qhull volumes); the self term is not compared (it is defined by the
     # row sums).  Noise model: each float32-rounded input moves a cell volume by <~ eps * surface, the difference
     # quotient divides that by 2 deltar.
-    R, V0 = _ref_matrix(case["pos"][k], case["cell"]["lo"], L, case["deltar"])
-    _, rbonds = voro.periodic_voronoi(case["pos"][k] - case["cell"]["lo"], L)
+    R, V0 = _ref_matrix(case["pos"][k], cellk["lo"], L, case["deltar"])
+    _, rbonds = voro.periodic_voronoi(case["pos"][k] - cellk["lo"], L)
     surf = np.array([sum(w for _, w in rbonds[i]) for i in range(N)])
-    eps = _f32_eps(L, case["pos"][k], case["cell"]["lo"])
+    eps = _f32_eps(L, case["pos"][k], cellk["lo"])
+    self_touch = any(j == i for i in range(N) for j, _ in rbonds[i])
     noise = 4 * d * eps * surf / (2 * case["deltar"])  # per row, in units of volume per length
     off = np.ones((N, N * d), dtype=bool)
     for i in range(N):
@@ -423,13 +474,15 @@ def check_volmat(case):
             close("saved transformed matrix", np.load(tfile), B, rtol=0, atol=0)
     distinct_frames = T >= 2 and k >= 1
     tags = [f"d{d}", f"origin-{case['cell']['origin']}", f"frames{T}", f"nconfig{min(k, 2)}", f"deltar{case['deltar']}",
-            "saved" if case["save"] else "unsaved", "outside" if case["outside"] else "inside"]
+            "saved" if case["save"] else "unsaved", "outside" if case["outside"] else "inside", "box-" + case["shape"],
+            "box-varies" if case["varybox"] else "box-constant", "self-image-contact" if self_touch else "no-self-contact"]
     return {"nontrivial": bool(distinct_frames or case["cell"]["origin"] != "zero"), "tags": tags}
 
 
 def describe(case):
     return {"d": case["d"], "N": int(len(case["types"])), "frames": len(case["pos"]), "origin": case["cell"]["origin"],
-            "L": np.round(np.diag(case["cell"]["H"]), 3).tolist(), "lo": np.round(case["cell"]["lo"], 3).tolist(),
+            "L": [np.round(np.diag(c["H"]), 3).tolist() for c in case["cells"]], "lo": np.round(case["cell"]["lo"], 3).tolist(),
+            "box": case["shape"],
             "kind": case["kind"], "outside": case["outside"], "nconfig": case.get("nconfig"),
             "pos0": np.round(case["pos"][0][:3], 4).tolist()}
 
